@@ -109,7 +109,8 @@ def recAgrees (m i : Rec) : Bool :=
 def firstDisagreement (model impl : Dump) : Option String :=
   let rec go : List Rec → List Rec → Option String
     | [], [] => none
-    | m :: ms, i :: is => if recAgrees m i then go ms is else some s!"record {m.kind} {m.path}: model {repr m} impl {repr i}"
+    | m :: ms, i :: is => if recAgrees m i then go ms is else
+        some ((s!"record {m.kind} {m.path}: model {repr m} impl {repr i}".replace "\n" " "))
     | m :: _, [] => some s!"model has an extra record {m.kind} {m.path}"
     | [], i :: _ => some s!"implementation has an extra record {i.kind} {i.path}"
   go model impl
